@@ -34,7 +34,9 @@ func c11Grid() []interface{} {
 	for _, f := range reals {
 		g = append(g, f)
 	}
-	texts := []string{"", "a", "A", "a ", "a  ", "a\t", "a\n", "a\r", " a", "ab", "aB", "Ab", "AB", "b", "B", "é", "É", "e", "a\x00", "a\x00b", "a\x00B", "A\x00c", "[", "`", "@", "Z", "z", " ", "  ", "\t", "0", "1", "a é", "A É ", "z ", "Z  "}
+	texts := []string{"", "a", "A", "a ", "a  ", "a\t", "a\n", "a\r", " a", "ab", "aB", "Ab", "AB", "b", "B", "é", "É", "e", "a\x00", "a\x00b", "a\x00B", "A\x00c", "[", "`", "@", "Z", "z", " ", "  ", "\t", "0", "1", "a é", "A É ", "z ", "Z  ",
+		// TEXT that is not valid UTF-8 is legal (CAST(x'..' AS TEXT)) and compared byte by byte; U+FFFD itself sits between them
+		"caf\xe9", "caf\xff", "caf\ud55c", "caf\ufffd", "\x80", "a\xc3", "caf\xe9 "}
 	for _, s := range texts {
 		g = append(g, s)
 	}
